@@ -576,11 +576,13 @@ static int ec_write(char *loc, char *cmd, char *arg, char *txt)
 	path = arg[0] ? ex_pathexpand(arg, 1) : ex_path();
 	if (cmd[0] == 'x' && !lbuf_modified(xb))
 		return 0;
-	if (ex_region(loc, &beg, &end) || path == NULL)
+	if (path == NULL)
 		return 1;
-	if (!loc[0]) {
+	if (!loc[0]) {		/* the whole buffer, wherever the current line is */
 		beg = 0;
 		end = lbuf_len(xb);
+	} else if (ex_region(loc, &beg, &end)) {
+		return 1;
 	}
 	if (path[0] == '!') {
 		if (!path[1])
@@ -1075,9 +1077,10 @@ static int ec_at(char *loc, char *cmd, char *arg, char *txt)
 	int lnmode;
 	int ret;
 	char *buf = reg_get(REG(arg), &lnmode);
-	if (!buf || ex_region(loc, &beg, &end))
+	if (!buf || (loc[0] && ex_region(loc, &beg, &end)))
 		return 1;
-	xrow = beg;
+	if (loc[0])
+		xrow = beg;
 	if (cmd[0] == 'r' && cmd[1] == 'a') {
 		struct sbuf *r = sbuf_make();
 		char *s = buf;
